@@ -6,6 +6,7 @@ package main
 import (
 	"crypto/ecdsa"
 	"math/big"
+	"strings"
 
 	sdk "github.com/cosmos/cosmos-sdk/types"
 	"github.com/ethereum/go-ethereum/common"
@@ -25,6 +26,26 @@ func rndAddr(rng *Rng) common.Address {
 		}
 	}
 	return a
+}
+
+// spell: the hub keeps addresses as strings and accepts every spelling common.IsHexAddress does (checksummed,
+// lower / upper case digits, "0X" prefix, no prefix); what is signed is the 20-byte address in all of them
+func spell(rng *Rng, a common.Address) string {
+	h := a.Hex()
+	switch rng.Intn(10) {
+	case 0:
+		return strings.ToLower(h)
+	case 1:
+		return "0X" + h[2:]
+	case 2:
+		return h[2:]
+	case 3:
+		return "0x" + strings.ToUpper(h[2:])
+	case 4:
+		return "0X" + strings.ToLower(h[2:])
+	default:
+		return h
+	}
 }
 
 func rndU256(rng *Rng) *big.Int {
@@ -79,7 +100,7 @@ func runCkptCase(seed uint64) (V, V) {
 		for i := 0; i < n; i++ {
 			a := rndAddr(rng)
 			p := rng.Next() >> uint(32+rng.Intn(31))
-			signers = append(signers, &types.ExternalSigner{Power: p, ExternalAddress: a.Hex()})
+			signers = append(signers, &types.ExternalSigner{Power: p, ExternalAddress: spell(rng, a)})
 			addrs = append(addrs, Bb(a.Bytes()))
 			powers = append(powers, U(p))
 		}
@@ -95,7 +116,7 @@ func runCkptCase(seed uint64) (V, V) {
 		var amounts, dests, fees []V
 		for i := 0; i < n; i++ {
 			a, f, d := rndU256(rng), rndU256(rng), rndAddr(rng)
-			txs = append(txs, &types.SendToExternal{ExternalRecipient: d.Hex(), Token: types.ExternalToken{Amount: sdk.NewIntFromBigInt(a)},
+			txs = append(txs, &types.SendToExternal{ExternalRecipient: spell(rng, d), Token: types.ExternalToken{Amount: sdk.NewIntFromBigInt(a)},
 				Fee: types.ExternalToken{Amount: sdk.NewIntFromBigInt(f)}})
 			amounts = append(amounts, Z(a))
 			fees = append(fees, Z(f))
@@ -103,7 +124,7 @@ func runCkptCase(seed uint64) (V, V) {
 		}
 		token := rndAddr(rng)
 		nonce, timeout := rndNonce(rng), rndNonce(rng)
-		b := types.BatchTx{BatchNonce: nonce, Timeout: timeout, Transactions: txs, ExternalTokenId: token.Hex()}
+		b := types.BatchTx{BatchNonce: nonce, Timeout: timeout, Transactions: txs, ExternalTokenId: spell(rng, token)}
 		return L(I(2), B(gid), L(amounts...), L(dests...), L(fees...), U(nonce), Bb(token.Bytes()), U(timeout)), Bb(b.GetCheckpoint([]byte(gid)))
 	default:
 		nt, nf := rng.Intn(4), rng.Intn(4)
@@ -111,13 +132,13 @@ func runCkptCase(seed uint64) (V, V) {
 		var ta, tt, fa, ft []V
 		for i := 0; i < nt; i++ {
 			a, c := rndU256(rng), rndAddr(rng)
-			toks = append(toks, types.ExternalToken{Amount: sdk.NewIntFromBigInt(a), ExternalTokenId: c.Hex()})
+			toks = append(toks, types.ExternalToken{Amount: sdk.NewIntFromBigInt(a), ExternalTokenId: spell(rng, c)})
 			ta = append(ta, Z(a))
 			tt = append(tt, Bb(c.Bytes()))
 		}
 		for i := 0; i < nf; i++ {
 			a, c := rndU256(rng), rndAddr(rng)
-			fs = append(fs, types.ExternalToken{Amount: sdk.NewIntFromBigInt(a), ExternalTokenId: c.Hex()})
+			fs = append(fs, types.ExternalToken{Amount: sdk.NewIntFromBigInt(a), ExternalTokenId: spell(rng, c)})
 			fa = append(fa, Z(a))
 			ft = append(ft, Bb(c.Bytes()))
 		}
@@ -131,7 +152,7 @@ func runCkptCase(seed uint64) (V, V) {
 		}
 		logic := rndAddr(rng)
 		timeout, inonce := rndNonce(rng), rndNonce(rng)
-		c := types.ContractCallTx{InvalidationNonce: inonce, InvalidationScope: scope, Address: logic.Hex(), Payload: pl, Timeout: timeout, Tokens: toks, Fees: fs}
+		c := types.ContractCallTx{InvalidationNonce: inonce, InvalidationScope: scope, Address: spell(rng, logic), Payload: pl, Timeout: timeout, Tokens: toks, Fees: fs}
 		return L(I(3), B(gid), L(ta...), L(tt...), L(fa...), L(ft...), Bb(logic.Bytes()), Bb(pl), U(timeout), Bb(scope), U(inonce)), Bb(c.GetCheckpoint([]byte(gid)))
 	}
 }
@@ -160,7 +181,18 @@ func runSigCase(seed uint64) (V, V) {
 	}
 	addr := crypto.PubkeyToAddress(priv.PublicKey)
 	claimed := addr
-	switch rng.Intn(8) {
+	switch rng.Intn(10) {
+	case 8, 9:
+		// the other signature of the same key over the same digest: (r, n-s, v^1); ecrecover (the contract) and
+		// go-ethereum's recovery accept both
+		n := crypto.S256().Params().N
+		s2 := new(big.Int).Sub(n, new(big.Int).SetBytes(sig[32:64]))
+		copy(sig[32:64], make([]byte, 32))
+		s2.FillBytes(sig[32:64])
+		sig[64] ^= 1
+		if rng.Chance(1, 2) {
+			sig[64] += 27
+		}
 	case 0:
 		claimed = rndAddr(rng) // somebody else
 	case 1:
